@@ -50,10 +50,10 @@ void run_curve(const std::string & name, const Curve & curve)
 
   // Tolerances (statement gives none): max(100 x worst observed, 64 eps) on the thorough alphabet over the cases in which
   // the forward pass does not run into its velocity floor (witnesses are written to the evidence notes):
-  //   decrease across a knot  worst 2.0e-14 -> 2e-12   (segment end s_i + c1 + c2 vs next start s_{i+1}: cancellation in
+  //   decrease across a knot  worst 4.1e-14 -> 5e-12   (segment end s_i + c1 + c2 vs next start s_{i+1}: cancellation in
   //   jump at a knot          worst 4.3e-14 -> 5e-12    the quadratic formula for the segment duration)
   //   s(T) - t_max            worst 5.6e-16 -> 1e-13
-  const double TOL_MONO = 2e-12, TOL_JUMP = 5e-12, TOL_END = 1e-13;
+  const double TOL_MONO = 5e-12, TOL_JUMP = 5e-12, TOL_END = 1e-13;
   mc::explore("C14/reparameterize/" + name, nV * nA * 2 * 4 * 4 * 2, [&](mc::Case & c) {
     mc::Radix r(c.idx);
     const uint64_t iN = r.next(2), ie = r.next(4), is = r.next(4), asym = r.next(2), ia = r.next(nA), iv = r.next(nV);
